@@ -217,6 +217,104 @@ def build_harness(rep, pid, tier, cmds=("seqdiff",)):
     return bdir
 
 
+LIB_DIRS = [".", "faststats", "closers/hystrix", "closers/simplelogic", "metrics/rolling", "metrics/responsetimeslo"]
+
+
+def make_overlay(bdir):
+    """Generate, from /repo's CURRENT sources, the overlay that maps the library's sync/atomic and
+    sync imports to the instrumented drop-ins and adds the virtual package /repo/verifsched."""
+    ov = os.path.join(bdir, "ov")
+    os.makedirs(ov, exist_ok=True)
+    repl = {}
+    for d in LIB_DIRS:
+        full = os.path.join(REPO, d)
+        for fn in sorted(os.listdir(full)):
+            if not fn.endswith(".go") or fn.endswith("_test.go"):
+                continue
+            src = open(os.path.join(full, fn)).read()
+            new = re.sub(r'(?m)^(\s*)"sync/atomic"\s*$', r'\1atomic "github.com/cep21/circuit/v4/verifsched"', src)
+            new = re.sub(r'(?m)^(\s*)"sync"\s*$', r'\1sync "github.com/cep21/circuit/v4/verifsched"', new)
+            if new != src:
+                dst = os.path.join(ov, ("root" if d == "." else d.replace("/", "_")) + "__" + fn)
+                open(dst, "w").write(new)
+                repl[os.path.normpath(os.path.join(full, fn))] = dst
+    for fn in os.listdir(os.path.join(HARNESS, "overlay", "verifsched")):
+        repl[os.path.join(REPO, "verifsched", fn)] = os.path.join(HARNESS, "overlay", "verifsched", fn)
+    path = os.path.join(bdir, "overlay.json")
+    json.dump({"Replace": repl}, open(path, "w"), indent=1)
+    return path, sorted(os.path.relpath(k, REPO) for k in repl)
+
+
+def build_schedrun(rep, pid, tier):
+    bdir = os.path.join(HARNESS, ".build", "%s-%s-l2" % (pid, tier))
+    shutil.rmtree(bdir, ignore_errors=True)
+    os.makedirs(bdir)
+    ovpath, files = make_overlay(bdir)
+    with Lock(os.path.join(HARNESS, ".lock")):
+        shutil.copy(os.path.join(REPO, "go.sum"), os.path.join(HARNESS, "go.sum"))
+        rc, out = run(["go", "build", "-overlay", ovpath, "-o", os.path.join(bdir, "schedrun"), "./cmd/schedrun"], cwd=HARNESS, env=GOENV, timeout=900)
+    if rc != 0:
+        rep.broken.append(("correspondence", "level-2 harness does not build against /repo's working tree (overlay):\n" + out[-3000:]))
+        rep.say("schedrun build FAILED:\n" + out[-1500:])
+        return None
+    return bdir
+
+
+def schedrun_tie(rep, bdir, gdir, scenario, n, shards, clause_prefixes=None):
+    """Run scheduled executions of the real code, replay every trace on the level-2 model."""
+    exe = os.path.join(bdir, "schedrun")
+
+    def one(sh):
+        js = os.path.join(gdir, "l2_%s_%d.json" % (scenario, sh))
+        vf = os.path.join(gdir, "l2_%s_%d.v" % (scenario, sh))
+        rc, out = run([exe, scenario, "gen", "-seed", str(rep.seed), "-tier", rep.tier, "-n", str(n), "-shard", str(sh), "-out", js], timeout=1800)
+        if rc != 0:
+            return (js, None, "schedrun gen failed: " + out[-2000:])
+        rc, out = run([exe, scenario, "emit", "-in", js, "-out", vf], timeout=600)
+        if rc != 0:
+            return (js, None, "schedrun emit failed: " + out[-2000:])
+        ok, ids, text = coq_eval_cases(vf)
+        if not ok:
+            return (js, None, "coqc failed on generated traces: " + text[-2000:])
+        return (js, ids, text)
+
+    with ThreadPoolExecutor(max_workers=min(shards, 8)) as ex:
+        results = list(ex.map(one, range(shards)))
+    seen = set()
+    for js, ids, text in results:
+        if ids is None:
+            rep.broken.append(("correspondence", "L2 %s: %s" % (scenario, text)))
+            rep.say("L2 tie %s: BROKEN: %s" % (scenario, text[-800:]))
+            continue
+        f = json.load(open(js))
+        for k, v in f.get("distribution", {}).items():
+            key = "L2:%s/%s" % (scenario, k)
+            rep.cov["distribution"][key] = rep.cov["distribution"].get(key, 0) + v
+        for k, v in (f.get("exhaustive_spaces") or {}).items():
+            rep.cov.setdefault("exhaustive_instances", {})["%s/%s" % (scenario, k)] = v
+        byid = {c["id"]: c for c in f["cases"]}
+        rep.cov["evaluations"] += len(f["cases"])
+        rep.cov["traces_validated_against_impl"] += len(f["cases"]) - len(ids)
+        rep.cov["transitions"] = rep.cov.get("transitions", 0) + sum(len(c.get("trace") or []) for c in f["cases"])
+        for c in f["cases"]:
+            if len(c.get("trace") or []) > 1:
+                seen.add(json.dumps([c["params"], c["trace"]], sort_keys=True))
+            for v in c.get("violations") or []:
+                mm = re.match(r"(C\d\d):", v["clause"])
+                if mm and mm.group(1) != rep.pid:
+                    continue
+                rep.violations.append({"kind": "monitor", "family": "L2:" + scenario, "clause": v["clause"], "detail": v["detail"],
+                                       "case": {k: c[k] for k in ("params", "schedule", "policy", "trace")}, "seed": f["seed"]})
+        for i in ids:
+            rep.broken.append(("correspondence", "L2 %s case %d: model trace and implementation trace differ" % (scenario, i)))
+            rep.mismatch_cases = getattr(rep, "mismatch_cases", []) + [{"family": "L2:" + scenario, "case": byid.get(i), "model": text[:3000]}]
+        if f["cases"] and len(rep.cov["samples"]) < 4:
+            c = f["cases"][min(len(f["cases"]) - 1, 5)]
+            rep.cov["samples"].append({"L2_scenario": scenario, "params": c["params"], "policy": c["policy"], "trace": c["trace"][:14]})
+    rep.cov["distinct_nontrivial"] += len(seen)
+    rep.cov["ties"].append("L2:" + scenario)
+
+
 def gen_dir(pid, tier):
     d = os.path.join(COQ, "gen", "%s-%s" % (pid, tier))
     shutil.rmtree(d, ignore_errors=True)
